@@ -1,4 +1,6 @@
 #include "sim/runner.h"
+
+#include <memory>
 #include "worlds/engine_world.h"
 #include "worlds/queue_world.h"
 #include "worlds/bs_world.h"
@@ -6,7 +8,24 @@
 #include "worlds/ninja_world.h"
 
 namespace runner {
+namespace {
+// C05 is decided at engine level (world A) and, for a share of the seeds, through the build-system frontend (world B)
+class SplitWorld : public World {
+  std::unique_ptr<World> a, b;
+  unsigned every;
+public:
+  SplitWorld(World* a, World* b, unsigned every) : a(a), b(b), every(every) {}
+  void warmup() override {
+    a->warmup();
+    b->warmup();
+  }
+  util::Json generate(uint64_t seed, const GenOptions& opt) override { return seed % every == 0 ? b->generate(seed, opt) : a->generate(seed, opt); }
+  RunResult execute(const util::Json& plan) override { return plan.gets("world") == "B" ? b->execute(plan) : a->execute(plan); }
+};
+} // namespace
+
 World* makeWorld(const std::string& property) {
+  if (property == "C05") return new SplitWorld(wa::makeEngineWorld(property), wb::makeBsWorld(property), 4);
   if (property == "C01" || property == "C02" || property == "C03" || property == "C04" || property == "C05" ||
       property == "C06" || property == "C07" || property == "C20")
     return wa::makeEngineWorld(property);
